@@ -54,3 +54,23 @@ Definition expected_ending (rs : list croute) (date : bytes) (reqs : list reques
 (* a request after which the connection stays open *)
 Definition stays_open (rs : list croute) (date : bytes) (req : request) : Prop :=
   is_upgrade req = false /\ respond rs date req <> None /\ keep_alive_of req = true.
+
+(* the bytes written for one request: its serialised response, or nothing when the handler panics *)
+Definition response_of (rs : list croute) (date : bytes) (req : request) : list bytes :=
+  match respond rs date req with Some resp => [serialize_response resp] | None => [] end.
+
+(* how a connection ends at a request after which it does not stay open *)
+Definition stop_ending (rs : list croute) (date : bytes) (req : request) : ending :=
+  if is_upgrade req then EUpgrade else match respond rs date req with None => EPanic | Some _ => ENoKeepAlive end.
+
+(* a byte string that is exactly one complete keep-alive (non-upgrade) request *)
+Definition complete_keepalive_request (ipp : bytes -> option bytes) (p : peer) (r : bytes) : bool :=
+  match parse_request_flat ipp p r with
+  | Ok (q, []) => keep_alive_of q && negb (is_upgrade q)
+  | _ => false
+  end.
+
+(* the next thing the server sees is an idle gap longer than the timeout *)
+Definition starts_with_timeout (inp : list (option bytes)) : bool :=
+  match inp with None :: _ => true | _ => false end.
+
